@@ -30,6 +30,7 @@ pub mod c19;
 pub mod c20;
 
 pub fn exec(prop: &str, v: &Value) -> Result<Value> {
+	crate::proj_quill::REV.with(|r| r.set(v.get("rev").and_then(Value::as_bool).unwrap_or(false) || std::env::var_os("VERIF_REV").is_some()));
 	match prop {
 		"C01" => c01::exec(v),
 		"C02" => c02::exec(v),
@@ -56,6 +57,15 @@ pub fn exec(prop: &str, v: &Value) -> Result<Value> {
 }
 
 pub fn gen(prop: &str, seed: u64, n: usize) -> Result<Vec<Value>> {
+	let mut out = gen1(prop, seed, n)?;
+	// every second recorded case of the operations on mapping sets builds its sets with the entries inserted in the opposite order
+	if matches!(prop, "C06" | "C08" | "C10" | "C11" | "C12") {
+		for (i, rec) in out.iter_mut().enumerate() { if i % 2 == 1 { rec["rev"] = Value::Bool(true); } }
+	}
+	Ok(out)
+}
+
+fn gen1(prop: &str, seed: u64, n: usize) -> Result<Vec<Value>> {
 	match prop {
 		"C01" => c01::gen(seed, n),
 		"C02" => c02::gen(seed, n),
